@@ -328,55 +328,57 @@ def keys_rules(ctx):
     rets = [o for o in co if o.kind == "return"]
     if not rets:
         raise AnalysisError("create_key_pair: no normal outcome")
-    wk = [e.args[0] for o in rets for e in all_effects(o.effects) if isinstance(e, App) and e.op == "eff:call" and isinstance(e.args[0], App)
-          and e.args[0].op == "call" and isinstance(e.args[0].args[0], Ref) and e.args[0].args[0].obj.name == "_write_keypair"]
     priv = App("call", (Ref("func", gp), SELF, P("key_type")))
     gens = [e for o in rets for e in all_effects(o.effects) if isinstance(e, App) and e.op == "eff:call" and e.args[0] == priv]
     R.check("C15-D3c key pair belongs together and errors are reported", len(gens) == len(rets), "exactly one key is generated per pair",
             mod=ck.module, node=ck.node, function=ctx.fq(ck), expected="one generate_private_key call", found=f"{len(gens)} calls on {len(rets)} path(s)")
-    ok = False
-    if wk:
-        a = wk[0].args
-        pb, ub = a[2], a[3]
-        ok = isinstance(pb, App) and pb.op == "meth:private_bytes" and pb.args[0] == priv \
-            and isinstance(ub, App) and ub.op == "meth:public_bytes" and ub.args[0] == App("meth:public_key", (priv,)) \
-            and a[4] == P("file_name_prefix") and a[5] == P("encoding")
-        enc_ok = pb.args[1] == App("idx", (ctx.ev.term(kg.attrs["supported_encodings"], kg.module), P("encoding"))) == ub.args[1] \
-            if ok else False
+    # the two files, as the evaluation of create_key_pair with its private writers followed shows them (whether the writing sits in
+    # helpers or in the method itself): name, bytes, mode
+    evw = Evaluator(repo, inline_depth=3, inline_filter=lambda f: f.module is ck.module and f is not ck and f is not gp and f.name.startswith("_")
+                    and not f.name.startswith("__"))
+    wrets = [o for o in evw.outcomes(ck) if o.kind == "return"]
+    if not wrets:
+        raise AnalysisError("create_key_pair: no normal outcome")
+    writes = [e for e in all_effects(wrets[0].effects) if isinstance(e, App) and e.op == "eff:write"]
+    okw = len(writes) == 2 and len(wrets) == 1
+    foundw = f"{len(writes)} writes on {len(wrets)} normal path(s)"
+    by_role = {}
+    if okw:
+        for prefix_ in ("out/key", "out/app.v2", "rel.dir/key.pem"):
+            got_w = {}
+            try:
+                for e in writes:
+                    fh = e.args[0]
+                    name_ = teval(fh.args[0], {"param:file_name_prefix": prefix_, "param:encoding": "pem"})
+                    got_w[str(name_)] = (e.args[1], fh.args[1])
+            except Unknown as ex:
+                raise AnalysisError(f"{ctx.fq(ck)}: file name of a key file not evaluable ({ex})")
+            if set(got_w) != {f"{prefix_}_priv.pem", f"{prefix_}_pub.pem"} or any(v_[1] != Const("wb") for v_ in got_w.values()):
+                okw = False
+                foundw = f"prefix {prefix_!r}: { {k: repr(v[1]) for k, v in got_w.items()} }"[:300]
+                break
+            by_role = {"priv": got_w[f"{prefix_}_priv.pem"][0], "pub": got_w[f"{prefix_}_pub.pem"][0]}
+    R.check("C15-D3c key pair belongs together and errors are reported", okw, "private -> <prefix>_priv.<enc>, public -> <prefix>_pub.<enc>",
+            mod=ck.module, node=ck.node, function=ctx.fq(ck), expected="two binary writes named <prefix>_priv.<encoding> and <prefix>_pub.<encoding> (the extension appended to the prefix)",
+            found=foundw)
+    pb, ub = by_role.get("priv"), by_role.get("pub")
+    ok = isinstance(pb, App) and pb.op == "meth:private_bytes" and pb.args[0] == priv \
+        and isinstance(ub, App) and ub.op == "meth:public_bytes" and ub.args[0] == App("meth:public_key", (priv,))
+    if ok:
+        enc_ok = pb.args[1] == App("idx", (ctx.ev.term(kg.attrs["supported_encodings"], kg.module), P("encoding"))) == ub.args[1]
         R.check("C15-D3c key pair belongs together and errors are reported", enc_ok, "both halves use the requested encoding", mod=ck.module,
-                node=ck.node, function=ctx.fq(ck), expected="supported_encodings[encoding] for private and public", found=repr(a[2:4])[:240])
-        fmt_ok = ok and pb.args[2] == App("idx", (ctx.ev.term(kg.attrs["supported_private_formats"], kg.module), P("private_format"))) \
+                node=ck.node, function=ctx.fq(ck), expected="supported_encodings[encoding] for private and public", found=repr([pb, ub])[:240])
+        fmt_ok = pb.args[2] == App("idx", (ctx.ev.term(kg.attrs["supported_private_formats"], kg.module), P("private_format"))) \
             and ub.args[2] == App("idx", (ctx.ev.term(kg.attrs["supported_public_formats"], kg.module), P("public_format")))
         R.check("C15-D3c key pair belongs together and errors are reported", fmt_ok, "requested private/public formats", mod=ck.module, node=ck.node,
-                function=ctx.fq(ck), expected="supported_private_formats[private_format] / supported_public_formats[public_format]", found=repr(a[2:4])[:240])
-    R.check("C15-D3c key pair belongs together and errors are reported", ok, "public key derived from the generated private key; both written under one prefix",
-            mod=ck.module, node=ck.node, function=ctx.fq(ck), expected="_write_keypair(private_bytes(key), public_bytes(key.public_key()), prefix, encoding)",
-            found=repr(wk)[:240])
+                function=ctx.fq(ck), expected="supported_private_formats[private_format] / supported_public_formats[public_format]", found=repr([pb, ub])[:240])
+    R.check("C15-D3c key pair belongs together and errors are reported", ok, "public key derived from the generated private key; each written to its own file",
+            mod=ck.module, node=ck.node, function=ctx.fq(ck), expected="_priv file <- private_bytes(key), _pub file <- public_bytes(key.public_key())",
+            found=f"priv: {pb!r}; pub: {ub!r}"[:300])
     errs = [o for o in co if o.kind == "raise"]
     conv = {(_exc_cond(o), _exc(o)) for o in errs}
     R.check("C15-D3c key pair belongs together and errors are reported", ("ValueError", "GeneratorError") in conv, "unsupported combinations are reported as GeneratorError",
             mod=ck.module, node=ck.node, function=ctx.fq(ck), expected="except ValueError -> GeneratorError", found=f"{sorted(conv)}")
-    wp = kg.methods["_write_keypair"]
-    # decided on the writes of the evaluated method (its private helpers followed): which bytes go to which file name, in binary mode
-    evw = Evaluator(repo, inline_depth=2, inline_filter=lambda f: f.cls is kg and f is not wp)
-    wouts = [o for o in evw.outcomes(wp) if o.kind == "return"]
-    okw, foundw = len(wouts) == 1, f"{len(wouts)} normal outcomes"
-    if okw:
-        writes = [e for e in all_effects(wouts[0].effects) if isinstance(e, App) and e.op == "eff:write"]
-        got_w = {}
-        try:
-            for e in writes:
-                fh = e.args[0]
-                name_ = teval(fh.args[0], {"param:file_name_prefix": "out/key", "param:encoding": "pem"})
-                got_w[name_] = (e.args[1], fh.args[1])
-        except Unknown as ex:
-            raise AnalysisError(f"{ctx.fq(wp)}: file name of a key file not evaluable ({ex})")
-        want_w = {"out/key_priv.pem": (Sym("param:private"), Const("wb")), "out/key_pub.pem": (Sym("param:public"), Const("wb"))}
-        okw = got_w == want_w and len(writes) == 2
-        foundw = f"{ {k: (repr(v[0]), repr(v[1])) for k, v in got_w.items()} }"[:300]
-    R.check("C15-D3c key pair belongs together and errors are reported", okw, "private -> <prefix>_priv.<enc>, public -> <prefix>_pub.<enc>",
-            mod=wp.module, node=wp.node, function=ctx.fq(wp), expected="two binary writes: the private bytes to <prefix>_priv.<encoding>, the public bytes to <prefix>_pub.<encoding>",
-            found=foundw)
     # CLI choices are the tables' own keys
     R.rule("C15-D3d CLI choices", 5, "every choices= list is the key set of the table that is indexed")
     aa = repo.func(KEYS, "add_arguments")
